@@ -354,6 +354,8 @@ func cmdC13(tier string, seed int64, out, statsOut, replay string) {
 				gen.cfg.Overrides[f] = ov
 			}
 		}
+		// a tree addressed to one format whose source is a symbolic link to a directory (whatever resolves the link keeps the address)
+		gen.cfg.Contents = append(gen.cfg.Contents, &files.Content{Source: "src/lnkdir", Destination: fmt.Sprintf("/opt/c13-%d/linked-tree", i), Type: "tree", Packager: allFormats[i%len(allFormats)]})
 		if rng.Intn(4) == 0 {
 			gen.cfg.Overrides[nearMisses[rng.Intn(len(nearMisses))]] = &nfpm.Overridables{Depends: []string{"x"}}
 		}
